@@ -278,6 +278,154 @@ func genWiring(repo string) (string, error) {
 				return true
 			})
 		}
+		// ---- the configured message size limit reaches its two consumers unchanged ----
+		// in every function of the kafka package that reads transportConfig[ConfVarKafkaMaxMessageBytes]:
+		// the variable the value is type-asserted into, every later write to it, and every call argument /
+		// composite-literal element it occurs in ("plain" when the element is just the variable)
+		var limWrites, limUses, limProd, prodParams, facFields, newBatchArgs []string
+		for _, e := range ents {
+			if e.IsDir() || !strings.HasSuffix(e.Name(), ".go") || strings.HasSuffix(e.Name(), "_test.go") {
+				continue
+			}
+			src, rerr := os.ReadFile(filepath.Join(dir, e.Name()))
+			if rerr != nil || strings.HasPrefix(string(src), "//go:build verif") {
+				continue
+			}
+			fset := token.NewFileSet()
+			f, perr := parser.ParseFile(fset, e.Name(), src, 0)
+			if perr != nil {
+				return "", perr
+			}
+			text := func(x ast.Node) string {
+				return strings.Join(strings.Fields(string(src[fset.Position(x.Pos()).Offset:fset.Position(x.End()).Offset])), " ")
+			}
+			mentions := func(x ast.Node, name string) bool {
+				hit := false
+				ast.Inspect(x, func(y ast.Node) bool {
+					if id, ok := y.(*ast.Ident); ok && id.Name == name {
+						hit = true
+					}
+					return !hit
+				})
+				return hit
+			}
+			for _, d := range f.Decls {
+				fd, ok := d.(*ast.FuncDecl)
+				if !ok || fd.Body == nil {
+					continue
+				}
+				raw, lim := "", ""
+				var def ast.Node
+				ast.Inspect(fd.Body, func(x ast.Node) bool {
+					as, ok := x.(*ast.AssignStmt)
+					if !ok || len(as.Rhs) != 1 || len(as.Lhs) == 0 {
+						return true
+					}
+					if ix, ok := as.Rhs[0].(*ast.IndexExpr); ok && exprString(ix.Index) == "ConfVarKafkaMaxMessageBytes" && raw == "" {
+						raw = exprString(as.Lhs[0])
+					}
+					if ta, ok := as.Rhs[0].(*ast.TypeAssertExpr); ok && raw != "" && lim == "" && exprString(ta.X) == raw {
+						lim, def = exprString(as.Lhs[0]), as
+					}
+					return true
+				})
+				if lim == "" {
+					if raw != "" {
+						limWrites = append(limWrites, gstr(fd.Name.Name+": the configured value is not type-asserted into a variable"))
+					}
+					continue
+				}
+				ast.Inspect(fd.Body, func(x ast.Node) bool {
+					switch n := x.(type) {
+					case *ast.AssignStmt:
+						if n != def {
+							for _, l := range n.Lhs {
+								if exprString(l) == lim {
+									limWrites = append(limWrites, gstr(fd.Name.Name+": "+text(n)))
+								}
+							}
+						}
+					case *ast.IncDecStmt:
+						if exprString(n.X) == lim {
+							limWrites = append(limWrites, gstr(fd.Name.Name+": "+text(n)))
+						}
+					case *ast.UnaryExpr:
+						if n.Op == token.AND && exprString(n.X) == lim {
+							limWrites = append(limWrites, gstr(fd.Name.Name+": address taken: "+text(n)))
+						}
+					case *ast.CallExpr:
+						for i, a := range n.Args {
+							if mentions(a, lim) {
+								how := "plain"
+								if exprString(a) != lim {
+									how = text(a)
+								}
+								limUses = append(limUses, fmt.Sprintf("(%s, %s, %s)", gstr(fd.Name.Name), gstr(fmt.Sprintf("%s#%d", exprString(n.Fun), i)), gstr(how)))
+							}
+						}
+					case *ast.CompositeLit:
+						for i, a := range n.Elts {
+							v := a
+							pos := fmt.Sprintf("#%d", i)
+							if kv, ok := a.(*ast.KeyValueExpr); ok {
+								v, pos = kv.Value, "."+exprString(kv.Key)
+							}
+							if mentions(v, lim) {
+								how := "plain"
+								if exprString(v) != lim {
+									how = text(v)
+								}
+								limUses = append(limUses, fmt.Sprintf("(%s, %s, %s)", gstr(fd.Name.Name), gstr(exprString(n.Type)+pos), gstr(how)))
+							}
+						}
+					}
+					return true
+				})
+			}
+			for _, d := range f.Decls {
+				switch n := d.(type) {
+				case *ast.FuncDecl:
+					if n.Name.Name == "producerConfig" {
+						for _, fl := range n.Type.Params.List {
+							for _, nm := range fl.Names {
+								prodParams = append(prodParams, gstr(nm.Name))
+							}
+						}
+					}
+					if n.Body != nil {
+						ast.Inspect(n.Body, func(x ast.Node) bool {
+							if c, ok := x.(*ast.CallExpr); ok && strings.HasSuffix(exprString(c.Fun), "NewKafkaBatch") {
+								for _, a := range c.Args {
+									newBatchArgs = append(newBatchArgs, gstr(text(a)))
+								}
+							}
+							return true
+						})
+					}
+				case *ast.GenDecl:
+					for _, sp := range n.Specs {
+						if ts, ok := sp.(*ast.TypeSpec); ok && ts.Name.Name == "KafkaBatchFactory" {
+							if st, ok := ts.Type.(*ast.StructType); ok {
+								for _, fl := range st.Fields.List {
+									for _, nm := range fl.Names {
+										facFields = append(facFields, gstr(nm.Name))
+									}
+								}
+							}
+						}
+					}
+				}
+			}
+			// what is assigned to the sarama producer's own limit, and from which parameter
+			ast.Inspect(f, func(x ast.Node) bool {
+				if as, ok := x.(*ast.AssignStmt); ok && len(as.Lhs) == 1 && len(as.Rhs) == 1 && strings.HasSuffix(exprString(as.Lhs[0]), ".Producer.MaxMessageBytes") {
+					limProd = append(limProd, gstr(text(as.Rhs[0])))
+				}
+				return true
+			})
+		}
+		sort.Strings(limUses)
+		fmt.Fprintf(&sb, "(* transport/transporters/kafka: the configured kafka-max-message-bytes on its way to its two consumers (the batches, which drop and count what is larger, and the sarama producer, which refuses what is larger): later writes to the variable it is read into; the calls / literals it is handed to (function, callee, \"plain\" = the bare variable); what is assigned to Producer.MaxMessageBytes *)\nDefinition kafka_limit_writes : list string := %s.\nDefinition kafka_limit_uses : list (string * string * string) := %s.\nDefinition kafka_producer_limit_assigned : list string := %s.\n(* the parameters of producerConfig, the fields of KafkaBatchFactory, the arguments of its NewKafkaBatch call, in order *)\nDefinition kafka_producer_config_params : list string := %s.\nDefinition kafka_batch_factory_fields : list string := %s.\nDefinition kafka_new_batch_args : list string := %s.\n\n", glist(limWrites), "["+strings.Join(limUses, "; ")+"]", glist(limProd), glist(prodParams), glist(facFields), glist(newBatchArgs))
 		fmt.Fprintf(&sb, "(* transport/transporters/kafka: assignments to the sarama producer configuration. RequiredAcks left alone is sarama's default WaitForLocal (the leader has written the message); NoResponse would make SendMessages succeed before any broker answered *)\nDefinition kafka_required_acks_assigned : list string := %s.\nDefinition kafka_return_successes : string := %s.\nDefinition kafka_return_errors : string := %s.\n\n", glist(acks), gstr(succ), gstr(errs))
 	}
 	// ---- one shared termination signal: the handler is made once, in main, and only handed on ----
